@@ -1,5 +1,5 @@
 (* C05 - Decoding terminates with work bounded by the frame size. *)
-From MQ Require Import Model.Stream Proofs.StreamP Proofs.DecP Proofs.ReadP Proofs.BoundP.
+From MQ Require Import Model.Codec Model.Stream Proofs.StreamP Proofs.DecP Proofs.ReadP Proofs.BoundP Proofs.StepsP.
 
 (* Every loop of the decoders (property loop, SUBSCRIBE/UNSUBSCRIBE
    filter loops, reason codes) is run in the model on fuel
@@ -31,6 +31,17 @@ Theorem C05_lists_bounded : forall k p0 data,
   end.
 Proof. exact unmarshal_bound. Qed.
 Print Assumptions C05_lists_bounded.
+
+(* Work: the number of buffer.get calls (each decodes one field, in time
+   proportional to the bytes it consumes) that UnmarshalBinary makes is at
+   most twice the length of the data plus 16, for every packet type,
+   receiver state and byte string: a call that succeeds moves the offset
+   forward, a call that fails sets the error, after which a loop makes at
+   most one more call (the reason-code loop: one per remaining byte). *)
+Theorem C05_work_bounded : forall k p0 data,
+  (snd (unmarshal_steps k p0 data) <= 2 * length data + 16)%nat.
+Proof. exact unmarshal_steps_bound. Qed.
+Print Assumptions C05_work_bounded.
 
 (* witness of the pinned tree's endless loop: now an error *)
 Example C05_witness :
